@@ -89,10 +89,24 @@ static inline std::string hq_eval(Ctx &c, StringDictionary *d, const HQ &q) {
   return r;
 }
 
-static inline StringDictionary *fresh_copy(Ctx &c, const std::string &img) {
-  obs::crumb("C14", "history", "make another copy");
-  if (img.empty())
+// another copy of the dictionary under test: loaded from its image, or (fresh state, no image) built again; with `other_way` the
+// copy of a built dictionary is instead a loaded one (built, saved, destroyed, loaded), so that objects of both origins live and
+// die next to the dictionary under test
+static inline StringDictionary *fresh_copy(Ctx &c, const std::string &img, bool other_way = false) {
+  obs::crumb("C14", "history", other_way ? "make another copy (other origin)" : "make another copy");
+  if (img.empty()) {
+    StringDictionary *b = build_dict(c.kind, c.P, c.m);
+    if (!other_way || !b)
+      return b;
+    std::string im2 = save_image(b);
+    delete b;
+    std::stringstream s2(im2, std::ios::in | std::ios::binary);
+    return load_own(c.kind, s2, c.opt);
+  }
+  if (other_way) {
+    obs::count("cls.copy_built_next_to_loaded");
     return build_dict(c.kind, c.P, c.m);
+  }
   std::stringstream ss(img, std::ios::in | std::ios::binary);
   return load_own(c.kind, ss, c.opt);
 }
@@ -216,7 +230,7 @@ static inline void op_history(Ctx &c, const std::string &img) {
   size_t K = c.big ? 24 : 6;
   for (size_t t = 0; t < K && !pool.empty(); t++) {
     size_t i = r.below(pool.size());
-    StringDictionary *d3 = fresh_copy(c, img);
+    StringDictionary *d3 = fresh_copy(c, img, t % 2 == 1);
     if (!d3) break;
     std::string a = hq_eval(c, d3, pool[i]);
     obs::count("eval.history_first_call");
@@ -224,6 +238,14 @@ static inline void op_history(Ctx &c, const std::string &img) {
       obs::violation("C14", "history", "history-dependent", HQ_NAMES[pool[i].type], hq_str(pool[i]) + " answered " + obs::esc(ansA[i], 60) + " in the history and " + obs::esc(a, 60) + " as first call on a fresh copy");
     obs::crumb("C14", "history", "delete fresh copy");
     delete d3;
+    // the dictionary under test must not notice that other dictionaries (built or loaded) came and went
+    size_t j = r.below(pool.size());
+    obs::crumb("C14", "history", "after a copy was destroyed: " + hq_str(pool[j]));
+    std::string b = hq_eval(c, c.d, pool[j]);
+    obs::count("eval.history_after_copy_destroyed");
+    obs::count("cls.survives_copy_destruction");
+    if (b != ansA[j])
+      obs::violation("C14", "history", "history-dependent", HQ_NAMES[pool[j].type], hq_str(pool[j]) + " answered " + obs::esc(ansA[j], 60) + " in the history and " + obs::esc(b, 60) + " after another copy of the dictionary was created and destroyed");
   }
   // ---- model agreement for what the model determines
   for (size_t i = 0; i < pool.size(); i++) {
